@@ -223,6 +223,12 @@ def run(ck, facts, tier):
                 else:
                     ck.bad("R20.2", key + "#error-constant", "error path parses %r, which may succeed" % v, "%s:%s" % (t["file"], t["line"]))
                 continue
+            target = (t["f"].get("substs") or ["?"])[0]
+            if target != ty:
+                ck.bad("R20.2", key + "#parse-type:%s" % target, "the lexical form is parsed as `%s` in the conversion to `%s`: forms that "
+                       "are valid for %s but not for %s (or the reverse) get a value the literal does not denote" % (target, ty, target, ty),
+                       "%s:%s" % (t["file"], t["line"]))
+                continue
             if not comes_from_call(fn, t["args"][0], r"Term::lexical_form$|Term>::lexical_form$"):
                 ck.bad("R20.2", key + "#parse-source", "parse() applied to something other than the lexical form", "%s:%s" % (t["file"], t["line"]))
                 continue
